@@ -61,8 +61,12 @@ package vm
 
 // callFunction and importModule hand their own context on to eval (bodies checked for exactly that: every call
 // they make that has a C12 precondition).
+// C07: whatever happens inside the call (error from eval, error from a deferred function), the caller's frame
+// pointer and instruction pointer are restored before callFunction returns.
 //@ func (*VirtualMachine).callFunction
-//@ props C12
+//@ props C12 C07
+//@ assume[vm.frame.bounds] 0 <= vm.fp && vm.fp < 1023 && -1 <= vm.sp && vm.sp < 1023
+//@ ensures[C07.call.unwind] vm.fp == old(vm.fp) && vm.ip == old(vm.ip)
 //@ requires[C12.ctx] ctx != nil && hasos(ctx)
 //@ requires vm != nil
 //@ modcomps H_ E_ M G_ C_
@@ -72,8 +76,10 @@ package vm
 // branch returns before anything else); a freshly evaluated module is cached under its name, so every later
 // importer gets the same module object.
 //@ func (*VirtualMachine).importModule
-//@ props C12 C09 C14 C11
+//@ props C12 C09 C14 C11 C07
+//@ assume[vm.frame.bounds] 0 <= vm.fp && vm.fp < 1023 && -1 <= vm.sp && vm.sp < 1023
 //@ ensures[C14.cache.hit] old(haskey(vm.modules, name)) ==> err == nil && result0 == old(vm.modules[name]) && vm.fp == old(vm.fp) && vm.sp == old(vm.sp) && vm.ip == old(vm.ip)
+//@ ensures[C07.import.unwind] vm.fp == old(vm.fp) && vm.ip == old(vm.ip)
 //@ ensures[C11.import.disabled] !old(haskey(vm.modules, name)) && old(vm.importer) == nil ==> err != nil && result0 == nil
 //@ ensures[C14.cache.fill] !old(haskey(vm.modules, name)) && err == nil ==> haskey(vm.modules, name) && vm.modules[name] == result0
 //@ requires[C12.ctx] ctx != nil && hasos(ctx)
@@ -135,9 +141,18 @@ package vm
 //@ invariant 1: c != nil && fresh(c) && fresh(c.Globals)
 //@ ensures[C14.globals.fresh] result != nil && fresh(result) && fresh(result.Globals)
 
+// C07: resumeFrame re-establishes exactly the frame pointer, instruction pointer and stack height it is given
+// (plus at most the one result value of the frame being left).
 //@ func (*VirtualMachine).resumeFrame
-//@ trusted
+//@ props C07
+//@ requires vm != nil && 0 <= fp && fp < 1024 && -1 <= sp
+//@ assume[vm.stack.bounds] vm.sp < 1024 && sp < 1023
 //@ modcomps H_vm_VirtualMachine_fp H_vm_VirtualMachine_ip H_vm_VirtualMachine_sp H_vm_VirtualMachine_activeFrame H_vm_VirtualMachine_activeCode H_vm_VirtualMachine_frames H_vm_VirtualMachine_stack H_vm_frame_ E_
+//@ assumeframe
+//@ invariant 1: vm.sp == vm.sp
+//@ ensures[C07.resume.fp] vm.fp == fp && vm.ip == ip
+//@ ensures[C07.resume.sp] vm.sp == sp || vm.sp == sp + 1
+//@ ensures[C07.resume.sp.nogrow] vm.sp <= old(vm.sp) || vm.sp == sp
 
 // C09 / C14: a VM never aliases the instruction or name arrays of the compiled code: it works on its own copies.
 //@ func wrapCode
@@ -149,3 +164,25 @@ package vm
 //@ invariant 3: c != nil && fresh(c) && c.Code == cc && fresh(c.Instructions) && fresh(c.Names) && fresh(c.Constants) && len(c.Instructions) == len(cc.instructions) && len(c.Names) == len(cc.names) && len(c.Constants) == len(cc.constants) && forall(k, 0, len(cc.instructions), c.Instructions[k] == cc.instructions[k]) && forall(k, 0, len(cc.names), c.Names[k] == cc.names[k]) && 0 <= i && i <= len(cc.constants)
 //@ ensures[C09.wrap.own] result != nil && fresh(result) && result.Code == cc && fresh(result.Instructions) && fresh(result.Names) && fresh(result.Constants)
 //@ ensures[C09.wrap.copy] len(result.Instructions) == len(cc.instructions) && forall(k, 0, len(cc.instructions), result.Instructions[k] == cc.instructions[k]) && len(result.Names) == len(cc.names) && forall(k, 0, len(cc.names), result.Names[k] == cc.names[k]) && len(result.Constants) == len(cc.constants)
+
+// ---- C07: events of an earlier run cannot reach a later run ---------------------------------------------------
+// The context watcher started by start() (a function literal) sets halt only while holding runMutex and only if
+// the run it was started for is still the one in progress (KF-35 fixed).
+//@ func start$1
+//@ props C07
+//@ requires forallA(m, *int, !ghost("lock.w", bool, m))
+//@ storeguard[C07.watcher.samerun] VirtualMachine.halt: ghost("lock.w", bool, &vm.runMutex) && vm.running && vm.startCount == run
+
+// resetForNewCode leaves no trace of an earlier run in the registers and tables of the VM.
+//@ func (*VirtualMachine).resetForNewCode
+//@ props C07
+//@ requires vm != nil
+//@ invariant 1: vm.sp == -1 && vm.ip == 0 && vm.fp == 0 && vm.halt == 0 && vm.activeFrame == nil && vm.activeCode == nil && fresh(vm.loadedCode) && fresh(vm.modules) && 0 <= i && i <= 1024 && forall(k, 0, i, vm.stack[k] == nil)
+//@ invariant 2: vm.sp == -1 && vm.ip == 0 && vm.fp == 0 && vm.halt == 0 && vm.activeFrame == nil && vm.activeCode == nil && fresh(vm.loadedCode) && fresh(vm.modules) && forall(k, 0, 1024, vm.stack[k] == nil)
+//@ invariant 3: vm.sp == -1 && vm.ip == 0 && vm.fp == 0 && vm.halt == 0 && vm.activeFrame == nil && vm.activeCode == nil && fresh(vm.loadedCode) && fresh(vm.modules) && forall(k, 0, 1024, vm.stack[k] == nil)
+//@ ensures[C07.reset.registers] vm.sp == -1 && vm.ip == 0 && vm.fp == 0 && vm.halt == 0 && vm.activeFrame == nil && vm.activeCode == nil
+//@ ensures[C07.reset.tables] fresh(vm.loadedCode) && fresh(vm.modules) && forallA(k, string, !haskey(vm.modules, k))
+//@ ensures[C07.reset.stack] forall(k, 0, 1024, vm.stack[k] == nil)
+//@ scan[C07.halt.writers] C07 fieldwriters VirtualMachine.halt: start resetForNewCode
+//@ scan[C07.running.writers] C07 fieldwriters VirtualMachine.running: start stop Clone
+//@ scan[C07.startcount.writers] C07 fieldwriters VirtualMachine.startCount: start
